@@ -7,6 +7,7 @@ import (
 	"path/filepath"
 	"runtime"
 	"sync"
+	"sync/atomic"
 	"testing"
 
 	"github.com/db47h/decimal"
@@ -31,7 +32,14 @@ type C18Case struct {
 	Procs int        `json:"procs"`
 }
 
-var concKinds = []string{"add", "sub", "mul", "sqr", "quo", "quo", "fma", "sqrt", "cmp", "text", "format", "float64", "int", "gob", "marshaltext", "set", "gc", "gosched"}
+var concKinds = []string{"add", "sub", "mul", "sqr", "quo", "quo", "fma", "sqrt", "cmp", "text", "format", "wideformat", "float64", "int", "gob", "marshaltext", "set", "gc", "gosched"}
+
+// c18Epoch counts the workloads of this process: the wide formats of each workload are a little wider, and their runs
+// of zeros a little longer, than any the process has produced before (whatever the library sets up or grows lazily for
+// such output is then grown while other goroutines are formatting). Read once per workload; the concurrent and the
+// sequential run of a workload use the same value.
+var c18Epoch atomic.Int64
+var c18EpochNow int64
 
 func c18MaxDigits() int {
 	if h.Thorough() {
@@ -145,6 +153,21 @@ func runConcProg(pool []*decimal.Decimal, prog []ConcOp) (res []string) {
 				}
 			case "format":
 				res = append(res, fmt.Sprintf("%.20e|%v|%+.3f", a(0), a(1), a(0)))
+			case "wideformat":
+				// fields hundreds of bytes wider than the text, padded with blanks by one goroutine and with zeros by
+				// another; f and e texts with runs of zeros that grow from workload to workload
+				w := 256 + int(op.P%700) + int(c18EpochNow%4000)
+				if mp := a(0).MinPrec(); mp < 200 && a(0).MantExp(nil) < 400 && a(0).MantExp(nil) > -400 {
+					if op.M%2 == 0 {
+						res = append(res, fmt.Sprintf("%*.*f|%-*.3e", w, int(op.P%7), a(0), w+13, a(0)))
+					} else {
+						res = append(res, fmt.Sprintf("%0*.*f|%0*.3e", w+1, int(op.P%7), a(0), w+7, a(0)))
+					}
+				}
+				run := 64 + int(c18EpochNow)*3 + int(op.P%50)
+				big := new(decimal.Decimal).SetPrec(3).SetMantExp(decimal.NewDecimal(int64(1+op.P%9), 0), run)
+				small := new(decimal.Decimal).SetPrec(3).SetMantExp(decimal.NewDecimal(int64(1+op.P%9), 0), -run)
+				res = append(res, big.Text('f', int(op.P%3)), small.Text('f', run+5), big.Text('e', run+int(op.P%11)))
 			case "float64":
 				f, acc := a(0).Float64()
 				res = append(res, fmt.Sprint(f, acc))
@@ -188,11 +211,7 @@ func checkC18(c C18Case, o *h.Obs) *h.Fail {
 			bigShared = true
 		}
 	}
-	// sequential reference
-	want := make([][]string, len(c.Progs))
-	for g, p := range c.Progs {
-		want[g] = runConcProg(pool, p)
-	}
+	c18EpochNow = c18Epoch.Add(1)
 	usesPool := false
 	for _, p := range c.Progs {
 		for _, op := range p {
@@ -217,6 +236,11 @@ func checkC18(c C18Case, o *h.Obs) *h.Fail {
 	}
 	close(start)
 	wg.Wait()
+	// sequential reference (afterwards: whatever the library sets up lazily has been set up under concurrency)
+	want := make([][]string, len(c.Progs))
+	for g, p := range c.Progs {
+		want[g] = runConcProg(pool, p)
+	}
 	o.Labelf("goroutines=%d", len(c.Progs))
 	o.Labelf("procs=%d", c.Procs)
 	if len(c.Progs) >= 2 && bigShared && usesPool {
@@ -240,7 +264,7 @@ func checkC18(c C18Case, o *h.Obs) *h.Fail {
 	return nil
 }
 
-const ruleC18 = "rapid-generated workloads under the race detector (GORACE=halt_on_error=1), run with two race builds - the default one and one with -tags decimal_pure_go, because the detector does not see memory accesses made by the amd64 assembly kernels -: a pool of 2-6 shared operands (zeros and infinities; short values below one; small; straddling the Karatsuba threshold of 30 words; straddling the recursive-division threshold of 100 words; up to 4000 (quick) / 8000 (thorough) digits; clean, large-capacity and acc != Exact histories) and 2-8 goroutines each running 1-8 operations (Add, Sub, Mul, Mul(x,x), Quo, FMA, Sqrt, Set, Cmp, Text, Format, Float64, Int, GobEncode, MarshalText, runtime.GC to empty the scratch-buffer pool, Gosched) into receivers of their own; GOMAXPROCS drawn from {1,2,4,16}; about one workload in 40 shares operands of 26000-80000 digits between 2-5 goroutines dividing and multiplying them (scratch requests of 4096 words and more). Enumerated first in every process (TestC18Grid, cold start): 16 goroutines make the process's very first calls of every operation kind at the same moment on shared operands (whatever the library sets up lazily is then set up concurrently), compared with the same programs run sequentially afterwards. Oracle: no race report; every concurrent result equals the result of the same program run sequentially beforehand; every shared operand is bit-identical afterwards. Non-trivial = at least two goroutines sharing an operand of >= 30 words with at least one operation that uses pooled scratch space. The race detector flags conflicting unsynchronised accesses that occur in a run largely independent of timing; interleaving-only failures without a race are outside what this search can show (no schedule enumeration)."
+const ruleC18 = "rapid-generated workloads under the race detector (GORACE=halt_on_error=1), run with two race builds - the default one and one with -tags decimal_pure_go, because the detector does not see memory accesses made by the amd64 assembly kernels -: a pool of 2-6 shared operands (zeros and infinities; short values below one; small; straddling the Karatsuba threshold of 30 words; straddling the recursive-division threshold of 100 words; up to 4000 (quick) / 8000 (thorough) digits; clean, large-capacity and acc != Exact histories) and 2-8 goroutines each running 1-8 operations (Add, Sub, Mul, Mul(x,x), Quo, FMA, Sqrt, Set, Cmp, Text, Format, Float64, Int, GobEncode, MarshalText, runtime.GC to empty the scratch-buffer pool, Gosched) into receivers of their own; GOMAXPROCS drawn from {1,2,4,16}; about one workload in 40 shares operands of 26000-80000 digits between 2-5 goroutines dividing and multiplying them (scratch requests of 4096 words and more). Enumerated first in every process (TestC18Grid, cold start): 16 goroutines make the process's very first calls of every operation kind at the same moment on shared operands (whatever the library sets up lazily is then set up concurrently), compared with the same programs run sequentially afterwards. Oracle: no race report; every concurrent result equals the result of the same program run sequentially afterwards; wide formats (fields 256..5000 bytes wider than the text, blank- and zero-padded by different goroutines; f and e texts whose runs of zeros grow from workload to workload) among the operations; every shared operand is bit-identical afterwards. Non-trivial = at least two goroutines sharing an operand of >= 30 words with at least one operation that uses pooled scratch space. The race detector flags conflicting unsynchronised accesses that occur in a run largely independent of timing; interleaving-only failures without a race are outside what this search can show (no schedule enumeration)."
 
 var propC18 = &h.Prop[C18Case]{ID: "C18", Rule: ruleC18, Gen: genC18, Check: checkC18, Matchers: map[string]func(C18Case) bool{}}
 
